@@ -268,11 +268,18 @@ func prop(c Case, st *stats) (fail *vlib.Failure) {
 		}
 	}
 	// a failed persist leaves nothing under the item's name
+	var prevListing map[string]string
 	for i, e := range rr.Rec.Trace {
 		if e.Op == "persist" && e.Err != "" && e.After != nil {
-			if _, ok := e.After[e.Name]; ok {
+			// a file of that name may legitimately be there if it is the untouched, complete item of
+			// an earlier successful Persist of the same id (a retried round whose failure was
+			// injected before the directory was called)
+			if h, ok := e.After[e.Name]; ok && !(prevListing != nil && prevListing[e.Name] == h && len(e.Data) == 0) {
 				return vlib.Failf("partial-file-left", "trace event %d: Persist(%s) failed (%s) but a file of that name is left behind (%d bytes written)", i, e.Name, e.Err, len(e.Data))
 			}
+		}
+		if e.After != nil {
+			prevListing = e.After
 		}
 	}
 	// crash atomicity and durability on every image of the faulty trace
